@@ -1,8 +1,245 @@
 import EdpVerif.Drv.Common
-namespace Edp.Drv
+import EdpVerif.Impl.Rpc
+import EdpVerif.Spec.Rpc
+/-! Driver requests of property C17 (remote calls).
 
-/-- driver requests of property C17 (stub: nothing handled yet) -/
+* `c17trace <creation> <pids> <events>` — trace validation. `<events>` is the step trace recorded by the yield hook while
+  the real `Node` ran (comma separated, fields separated by dots; the last field of most events is
+  `Node::pending_rpc_count()` sampled at that point):
+
+      sp.<id>.<ser>.<cre>            `Node::spawn` returned this pid (a local process exists)
+      bi.<i>.<n>  ai.<i>.<n>  bl.<i>.<n>  as.<i>.<n>  to.<i>.<n>
+                                     call i reached rpc:before_insert / after_insert / before_lock / after_send / timed_out
+      ret.<i>.<result>.<n>           call i returned (`reply:<tag>`, `timeout`, `cancelled`, `noconn`, `senderr`)
+      dr.<i>.<n>                     the future of call i was dropped
+      pm.<node>.<id>.<ser>.<cre>.<tag>   the peer wrote a SEND to that pid (node 0 = our name) with body tag
+      pp.<id>.<ser>.<cre>.<tag>      the same, addressed to the local process
+      rt.<y>.<n>                     the receiver reached route:before_pending_remove (and yields y times there)
+      pc                             the peer closed the socket
+      fin.<n>                        everything is over
+
+  Every observed step must be enabled in the model (`Impl/Rpc.lean`, the same `step` the theorems are about), the table
+  size must agree at every point, the reply pids must be the ones the model's allocator gives. Steps the hooks do not see
+  are placed by the rules below; the one step whose moment is not determined by the trace — the receiver's
+  `remove` + `send` after its yields — is fired as late as the observations allow.
+  `<pids>`: the reply pid the peer saw per call (`-` if it saw none). Result: `ok out=<results> fin=<n> proc=<tags>`.
+
+* `c17spec <kinds> <order> <ending> <results> <fin> <procSent> <procGot>` — the Spec's judgement of a scenario.
+-/
+namespace Edp.Drv
+namespace C17
+open Edp.Impl
+open Edp.Impl.Rpc
+open Edp.Impl.PidAlloc (Pid Sh)
+
+def nat (s : String) : Except String Nat :=
+  match s.toNat? with
+  | some n => .ok n
+  | none => .error ("bad-nat " ++ s)
+
+/-- replay state: the model state, the peer's messages not yet taken by the receiver (`true` = addressed to the
+local process), whether the receiver still owes its `remove` + `send` -/
+structure R where
+  s : St
+  q : List (Bool × Msg) := []
+  owed : Bool := false
+
+def fire (r : R) (e : Step) : Except String R :=
+  match step r.s e with
+  | some s' => .ok { r with s := s' }
+  | none => .error s!"step not enabled: {repr e}"
+
+def fireAll (r : R) : List Step → Except String R
+  | [] => .ok r
+  | e :: es => do fireAll (← fire r e) es
+
+/-- the receiver's owed `pending_rpcs.remove` and `sender.send` -/
+def payDebt (r : R) : Except String R :=
+  if r.owed then do
+    let r1 ← fire r (.rRemove 0)
+    let r2 ← match r1.s.recv 0 with
+      | .holding _ _ _ => fire r1 (.rSend 0)
+      | _ => pure r1
+    pure { r2 with owed := false }
+  else .ok r
+
+/-- the lock is wanted by call `i`: a holder that already passed `rpc:after_send` has released it by now -/
+def freeLock (r : R) (i : Nat) : Except String R :=
+  match r.s.lock 0 with
+  | some j => if j ≠ i ∧ (r.s.callers j).pc = .sent then fire r (.unlock j) else .ok r
+  | none => .ok r
+
+def unlockSelf (r : R) (i : Nat) : Except String R :=
+  if (r.s.callers i).pc = .sent then fire r (.unlock i) else .ok r
+
+def outText : Option Outcome → String
+  | some (.reply _ b) => s!"reply:{b}"
+  | some .timeout => "timeout"
+  | some .cancelled => "cancelled"
+  | some .noConn => "noconn"
+  | some .sendErr => "senderr"
+  | some .allocFail => "panic"
+  | some .dropped => "dropped"
+  | none => "running"
+
+def pidOf (a b c : String) : Except String Pid := do pure ⟨← nat a, ← nat b, ← nat c⟩
+
+/-- the steps of call `i` that lead up to an observed point (everything between two points runs without a yield, so
+it is placed right before the point) -/
+def callerSteps (r : R) (ev : List String) (pids : List String) : Except String (R × Nat) :=
+  match ev with
+  | ["bi", i, n] => do
+    let i ← nat i
+    let r ← fire r (.begin i)
+    let c := r.s.callers i
+    if c.pc ≠ .allocated then throw "allocate failed in the model"
+    let seen := pids.getD i "-"
+    if seen ≠ "-" ∧ seen ≠ keyText c.key then
+      throw s!"reply pid: model {keyText c.key}, peer saw {seen}"
+    pure (r, ← nat n)
+  | ["ai", i, n] => do pure (← fire r (.insert (← nat i)), ← nat n)
+  | ["bl", i, n] => do pure (← fire r (.lookup (← nat i) (some 0)), ← nat n)
+  | ["as", i, n] => do
+    let i ← nat i
+    let r ← freeLock r i
+    pure (← fireAll r [.lock i, .send i true], ← nat n)
+  | ["to", i, n] => do
+    let i ← nat i
+    let r ← unlockSelf r i
+    pure (← fire r (.timeout i), ← nat n)
+  | ["dr", i, n] => do pure (← fire r (.drop (← nat i)), ← nat n)
+  | ["ret", i, o, n] => do
+    let i ← nat i
+    let r ←
+      if o.startsWith "reply:" then do
+        let r ← unlockSelf r i
+        let r ← fire r (.recvReply i)
+        match (r.s.callers i).pc with
+        | .exiting (.reply _ b) =>
+          if s!"reply:{b}" ≠ o then throw s!"call {i} returned {o}, the model's channel holds reply:{b}"
+          fire r (.finish i)
+        | _ => throw "no reply"
+      else if o == "timeout" then fireAll r [.timeoutRemove i, .finish i]
+      else if o == "noconn" then fireAll r [.lookup i none, .finish i]
+      else if o == "senderr" then do
+        let r ← freeLock r i
+        fireAll r [.lock i, .send i false, .finish i]
+      else if o == "cancelled" then do
+        let r ← unlockSelf r i
+        fireAll r [.recvClosed i, .finish i]
+      else throw s!"call {i} returned {o}"
+    pure (r, ← nat n)
+  | _ => throw "bad event"
+
+/-- the receiver takes the next message of the peer that needs routing; messages for the local process that come
+before it are delivered on the way (they have no yield point) -/
+def takeNextFrom (r : R) : List (Bool × Msg) → Except String R
+  | [] => throw "the receiver routes a message the peer did not send"
+  | (toProc, msg) :: rest => do
+    let before := r.s.procLog.length
+    let r ← fire { r with q := rest } (.rStart 0 msg)
+    let delivered := r.s.procLog.length > before
+    if toProc then
+      if ¬ delivered then throw "a message for the local process was not given to it"
+      takeNextFrom r rest
+    else
+      if delivered then throw "a message that is not for the local process was given to it"
+      pure { r with owed := true }
+
+def takeNext (r : R) : Except String R := takeNextFrom r r.q
+
+/-- messages for the local process at the head of the queue (no yield point marks them) -/
+def drainProcFrom (r : R) : List (Bool × Msg) → Except String R
+  | (true, msg) :: rest => do
+    let before := r.s.procLog.length
+    let r ← fire { r with q := rest } (.rStart 0 msg)
+    if r.s.procLog.length ≤ before then throw "a message for the local process was not given to it"
+    drainProcFrom r rest
+  | _ => .ok r
+
+def drainProc (r : R) : Except String R := drainProcFrom r r.q
+
+def event (r : R) (pids : List String) (e : String) : Except String R :=
+  let ev := e.splitOn "."
+  match ev with
+  | ["sp", a, b, c] => do
+    let p ← pidOf a b c
+    let r ← fire r .spawnProc
+    if r.s.procs.head? ≠ some p then throw "spawned pid differs from the model's"
+    pure r
+  | ["pm", nd, a, b, c, t] => do
+    pure { r with q := r.q ++ [(false, { node := ← nat nd, pid := ← pidOf a b c, body := ← nat t })] }
+  | ["pp", a, b, c, t] => do
+    pure { r with q := r.q ++ [(true, { node := 0, pid := ← pidOf a b c, body := ← nat t })] }
+  | ["pc"] => .ok r
+  | ["rt", _, n] => do
+    -- the receiver is sequential: what it owed from the previous message is done
+    let r ← payDebt r
+    let r ← takeNext r
+    if r.s.pending.length ≠ (← nat n) then throw s!"table size {r.s.pending.length} in the model, {n} observed"
+    pure r
+  | ["fin", n] => do
+    let r ← payDebt r
+    let r ← drainProc r
+    -- what the peer wrote but the receiver never took (the socket was closed first) was never received
+    if r.s.pending.length ≠ (← nat n) then throw s!"table size {r.s.pending.length} in the model, {n} observed"
+    pure r
+  | _ =>
+    -- a point of a call: first with the receiver's debt still open, then with the debt paid before the call's steps
+    let late : Except String R := do
+      let (r1, n) ← callerSteps r ev pids
+      if r1.s.pending.length ≠ n then throw s!"table size {r1.s.pending.length} in the model, {n} observed"
+      pure r1
+    match late with
+    | .ok r1 => .ok r1
+    | .error why =>
+      if r.owed then do
+        let r0 ← payDebt r
+        let (r1, n) ← callerSteps r0 ev pids
+        if r1.s.pending.length ≠ n then throw s!"table size {r1.s.pending.length} in the model, {n} observed"
+        pure r1
+      else .error why
+
+def replay (r : R) (pids : List String) : List String → Nat → Except String R
+  | [], _ => .ok r
+  | e :: es, k =>
+    match event r pids e with
+    | .ok r' => replay r' pids es (k + 1)
+    | .error why => .error s!"reject {k} {e} {why}"
+
+def listOf (s : String) : List String := if s == "-" then [] else s.splitOn ","
+
+def trace (creation pids events : String) : String :=
+  match nat creation with
+  | .error e => "bad-op " ++ e
+  | .ok c =>
+    let pids := pids.splitOn ","
+    match replay { s := St.init { nextId := 1, nextSerial := 0, creation := c, poisoned := false } 0 } pids
+        (events.splitOn ",") 0 with
+    | .error why => why.replace "\n" " "
+    | .ok r =>
+      let outs := (List.range pids.length).map fun i => outText (r.s.callers i).out
+      let proc := r.s.procLog.map fun (_, m) => match r.s.inbox[m]? with
+        | some msg => toString msg.body
+        | none => "?"
+      s!"ok out={";".intercalate outs} fin={r.s.pending.length} proc={if proc.isEmpty then "-" else ",".intercalate proc}"
+
+def spec (kinds outs fin sent got : String) : String :=
+  let ks := (listOf kinds).map Spec.Rpc.Kind.ofCode
+  if ks.any Option.isNone then "bad-op kind" else
+  let ks := ks.filterMap id
+  let os := (outs.splitOn ";").map Spec.Rpc.Out.ofText
+  let nats := fun (s : String) => (listOf s).map String.toNat!
+  match Spec.Rpc.judge ks os fin.toNat! (nats sent) (nats got) with
+  | none => "ok"
+  | some why => why
+
+end C17
+
+/-- driver requests of property C17 -/
 def handleC17 : List String → Option String
+  | ["c17trace", creation, pids, events] => some (C17.trace creation pids events)
+  | ["c17spec", kinds, _order, _ending, outs, fin, sent, got] => some (C17.spec kinds outs fin sent got)
   | _ => none
 
 end Edp.Drv
